@@ -114,8 +114,24 @@ def fresh_process_state():
 _log_lines = []
 
 
+LOG_THROUGH = None      # None | "file" | "syslog": also pass every log line through the real logging function of that method
+
+
 def _log(msg):
     _log_lines.append(msg)
+    if LOG_THROUGH == "file":
+        class _Out:
+            buffer = io.BytesIO()
+        old = sys.stdout
+        sys.stdout = _Out
+        try:
+            logger.log_file(msg)            # (a failure to log is the server's failure, as in production)
+        finally:
+            sys.stdout = old
+    elif LOG_THROUGH == "syslog":
+        logger.syslogfunc = lambda prio, m: m.encode("utf-8")     # syslog(3) takes text it can encode
+        logger.priority = 0
+        logger.log_syslog(msg)
 
 
 _mime_done = False
@@ -318,6 +334,35 @@ def request_segmented(req, config, cuts, tls=False, gap=0.015, **kw):
                 x.close()
             except OSError:
                 pass
+
+
+def request_live(req, config, tls=False, limit=3.0, **kw):
+    """The request over a real socket whose client keeps its sending side open (as a browser or netcat does) while it waits
+    for the answer.  -> (Resp or None, answered_in_time).  A server that goes on reading after the request is complete
+    blocks here until `limit`; the client then closes and the late answer (if any) is returned with answered_in_time False."""
+    import socket
+    a, b = socket.socketpair()
+    rf = b.makefile("rb")
+    box = {}
+
+    def serve():
+        box["r"] = request(b"", config, tls=tls, rfile=rf, **kw)
+    a.sendall(req)
+    th = threading.Thread(target=serve, daemon=True)
+    th.start()
+    th.join(limit)
+    in_time = not th.is_alive()
+    try:
+        a.shutdown(socket.SHUT_WR)
+    except OSError:
+        pass
+    th.join(10)
+    for x in (rf, a, b):
+        try:
+            x.close()
+        except OSError:
+            pass
+    return box.get("r"), in_time
 
 
 def get_protocol(line, config, tls=False, rest=b""):
